@@ -40,14 +40,14 @@ async def check_tree(ctx, case):
         rewritten = T.map_expressions(spec, lambda _holder, x: T.rewrite_indicator(x, "SOLL", replacement))
         results = []
         for which, tree_spec, flag in (("flag", spec, soll), ("rewritten", rewritten, soll), ("rewritten-other-flag", rewritten, not soll)):
-            world = E.World("c14", rc=asg, fc={k: (int(k) % 2 == 0) for k in POOLS.fc})
+            world = E.World("c14", rc=asg, fc={k: (int(k) % 2 == 0) for k in POOLS.fc}, pkg=case.get("pkg", {}))
             sc = sched.Sched(sched.RandomChooser(random.Random(rng.randrange(1 << 30)))) if which != "flag" or rng.random() < 0.5 else None
             out = await TB.validate(tree_spec, world, flag, scheduler=sc)
             ctx.evaluation()
             results.append(outcome_summary(out))
         ctx.count("relation_instances")
         if results[0][0] == "exc":
-            other_flag = await TB.validate(spec, E.World("c14", rc=asg, fc={k: (int(k) % 2 == 0) for k in POOLS.fc}), not soll, scheduler=None)
+            other_flag = await TB.validate(spec, E.World("c14", rc=asg, fc={k: (int(k) % 2 == 0) for k in POOLS.fc}, pkg=case.get("pkg", {})), not soll, scheduler=None)
             if other_flag[0] == "ok":
                 ctx.count("unknown_decided_by_soll_only")
         base = results[0]
@@ -74,7 +74,7 @@ async def check_tree(ctx, case):
     if groups and "K" in asg.values():
         group = rng.choice(groups)
         rewritten_group = T.map_expressions([group], lambda _h, x: T.rewrite_indicator(x, "SOLL", "MUSS"))[0]
-        world = E.World("c14", rc=asg, fc={k: (int(k) % 2 == 0) for k in POOLS.fc})
+        world = E.World("c14", rc=asg, fc={k: (int(k) % 2 == 0) for k in POOLS.fc}, pkg=case.get("pkg", {}))
 
         async def failed_then_default():
             from ahbicht.validation.validation import validate_deep_anwendungshandbuch
@@ -89,7 +89,7 @@ async def check_tree(ctx, case):
             return first, second
 
         async def reference():
-            E.set_world(E.World("c14", rc=asg, fc={k: (int(k) % 2 == 0) for k in POOLS.fc}))
+            E.set_world(E.World("c14", rc=asg, fc={k: (int(k) % 2 == 0) for k in POOLS.fc}, pkg=case.get("pkg", {})))
             return await validate_segment_level(TB.build_group(rewritten_group), True)
 
         a = await sched.run_under(None, failed_then_default)
@@ -111,7 +111,7 @@ async def check_tree(ctx, case):
             outs = []
             for tree_seg in (seg, rew):
                 obj = TB.build_segment(tree_seg)
-                world = E.World("c14", rc=asg, fc={k: (int(k) % 2 == 0) for k in POOLS.fc})
+                world = E.World("c14", rc=asg, fc={k: (int(k) % 2 == 0) for k in POOLS.fc}, pkg=case.get("pkg", {}))
 
                 async def go(obj=obj, world=world):
                     E.set_world(world)
@@ -134,7 +134,9 @@ def gen_case(ctx, rng):
         # exactly one UNKNOWN key: with some luck it is visited only below SOLL, where the flag decides between refusing (as MUSS) and optional (as KANN)
         asg = {k: rng.choice("FU") for k in POOLS.rc}
         asg[rng.choice(POOLS.rc)] = "K"
-    return {"spec": gen.tree(), "asg": asg, "schedule_seed": rng.randrange(1 << 30)}
+    spec = gen.tree()
+    pkg = T.abbreviate_spec(spec, rng) if rng.random() < 0.3 else {}
+    return {"spec": spec, "asg": asg, "schedule_seed": rng.randrange(1 << 30), "pkg": pkg}
 
 
 async def run(ctx):
